@@ -155,6 +155,8 @@ structure StR (σ : Sh) (s t : St) : Prop where
   root : s.root = sh σ t.root
   size : s.frames.size = t.frames.size + σ.d
   n0 : σ.n0 ≤ t.frames.size
+  /-- the root frame is common to both runs -/
+  pos : 0 < σ.n0
   frames : ∀ i ft, t.frames[i]? = some ft → ∃ fs, s.frames[sh σ i]? = some fs ∧ FrameR σ i fs ft
   dec : RefDec t
 
